@@ -380,6 +380,10 @@ fn layout0() -> Layout {
         l("/upd/chainout1", "chainout2"), l("/upd/chainout2", "lout"),
         l("/updlink", "upd"), l("/outlink", "out"), l("/out/back", "../upd"), l("/updabs", "/@R@/upd"),
         l("/dangdir", "nowhere"),
+        // names that exist only with something appended (a compressed or rotated sibling): asking for the bare name
+        // names nothing, inside or outside
+        f("/out/secret2.gz"), f("/out/sec.bz2"), f("/upd/inside.gz"), f("/upd/sub/in2.mrt.bz2"), f("/upd/rot.1"), f("/out/rot2~"),
+        l("/upd/latest.mrt.bz2", "../out/secret"), l("/upd/latest2.gz", "sub/b.mrt"),
     ];
     // a file whose name is not UTF-8: no query string can name it (lossy decoding)
     e.push(File([VROOT, b"/upd/\xff\xfe.mrt"].concat()));
@@ -410,6 +414,7 @@ const FILES0: &[&str] = &[
     "chain1", "chainout1", "../out/back/a.mrt", "../out/back", "../outlink/secret", "../updlink/a.mrt", "../updabs/sub/b.mrt",
     "a.mrt/", "a.mrt/.", "a.mrt/..", "a.mrt/../a.mrt", "a.mrt/x", "nonexistent", "nonexistent/../a.mrt", "nonexistent/..",
     "sp ace.mrt", "\u{fc}.mrt", "pct%41.mrt", "pctA.mrt", "plus+name", "plus name", "a.mrt\0", "\0", "sub\0/b.mrt", "a.mrt\0/../../out/secret",
+    "../out/secret2", "../out/sec", "inside", "sub/in2.mrt", "latest.mrt", "latest2", "sub/../../out/secret2", "inside.gz", "latest.mrt.bz2", "rot", "../out/rot2", "%2e%2e/out/secret2",
     "~", "\\..\\out\\secret", "..\\out\\secret", "sub/deep/../../../out/../upd/a.mrt", "....//out/secret", ".../a.mrt", "a.mrt#x", "a.mrt?x", "a.mrt&x=1", "x=y",
 ];
 
@@ -500,6 +505,8 @@ fn upd0(u: Option<&str>) -> Option<Vec<u8>> { u.map(|s| if s.is_empty() { vec![]
 /// A random tree below `/@R@` and things to ask about it.
 struct RandTree { layout: Layout, dirs: Vec<Vec<u8>>, names: Vec<String>, all: Vec<String> }
 
+const SUFFIXES: &[&str] = &[".gz", ".bz2", ".1", "~"];
+
 fn rand_tree(rng: &mut Rng) -> RandTree {
     const NAMES: &[&str] = &["a", "b", "c", "d.mrt", "e", "up", "x y"];
     let mut dirs: Vec<String> = vec!["".into()];
@@ -521,7 +528,8 @@ fn rand_tree(rng: &mut Rng) -> RandTree {
         }
     }
     for _ in 0..rng.range(3, 8) {
-        if let Some(p) = fresh(rng, &dirs, &taken) { entries.push(Entry::File(v(&p))); taken.push(p.clone()); files.push(p); }
+        // one file in three exists only as a compressed / rotated sibling of the name the generator picks from
+        if let Some(p) = fresh(rng, &dirs, &taken) { let p = if rng.chance(1, 3) { format!("{p}{}", rng.pick(SUFFIXES)) } else { p }; if taken.contains(&p) { continue; } entries.push(Entry::File(v(&p))); taken.push(p.clone()); files.push(p); }
     }
     for _ in 0..rng.range(3, 10) {
         if let Some(p) = fresh(rng, &dirs, &taken) {
@@ -575,6 +583,8 @@ fn guided_file(rng: &mut Rng, t: &RandTree, upd: &[u8]) -> Vec<u8> {
         out.push(p);
     }
     let mut s = out.join(&b"/"[..]);
+    // the bare name of an entry that exists only with a suffix
+    if let Some(suf) = SUFFIXES.iter().find(|x| s.ends_with(x.as_bytes())) { if rng.chance(1, 2) { s.truncate(s.len() - suf.len()); } }
     match rng.below(12) { 0 => s.extend_from_slice(b"/"), 1 => s.extend_from_slice(b"/."), 2 => s.extend_from_slice(b"/.."), _ => {} }
     s
 }
